@@ -185,6 +185,8 @@ def run(ctx):
     wtests.run(ctx)
     mon = install(ctx)
     rng = ctx.rng
+    from .. import longrun
+    _early = longrun.Early()
     n = ctx.budget(60_000, 600_000)
     done = 0
     while done < n and ctx.alive():
@@ -207,6 +209,7 @@ def run(ctx):
             G.failed_call(rng, _ec.calculate_lm, 4)
             extra_cls.append("after a failed call (malformed arguments, exception caught by the caller)")
         res = one_case(ctx, mon, steps, rate, accel, accum, via)
+        _early.remember((steps, rate, accel, accum, via))
         if res is None:
             continue
         classes = list(gen_classes) + extra_cls
@@ -228,6 +231,11 @@ def run(ctx):
         done += 1
         if rng.random() < 0.2:
             related_calls(ctx, mon, rng, steps, rate, accel, accum)
+    from plotink import ebb_calc as _ec2
+    longrun.churn_then_replay(
+        ctx, _ec2, "calculate_lm", lambda k: (1 + k % 3, 2 ** 27 + k, k % 9 - 4, k % 1000), _early,
+        lambda it: one_case(ctx, mon, it[0], it[1], it[2], it[3], it[4]), n_quick=70_000, n_thorough=140_000)
+    ctx.need("history: asked again after many other distinct requests", 30)
     import_time_phase(ctx, ctx.budget(600, 5000))
     mon = install(ctx)
     for cls in NEEDED + ["history: related arguments after a previous call", "module imported under low precision",
